@@ -7,5 +7,8 @@ CONSTANTS
   GS <- GFew
   QU <- Q1
   KS <- KFew
+  QM <- QMulti
+  GM <- GMulti
+  PM <- PMulti
 ACTION_CONSTRAINT EdgeOut
 CHECK_DEADLOCK FALSE
